@@ -15,6 +15,7 @@ from .coqlit import cbool, clist, cpair, cstr
 from .symfuncs import ListLog, SymFunc, canon
 
 ROOTS = ["x", "y", "z", "w"]
+NONE_PREFIX = "nil"     # functions / tuple members with such a name return None (symfuncs.py, Model/SymNone.v)
 
 
 def func_defaults(fd) -> list:
@@ -60,7 +61,8 @@ def build(pd, log=None, **pipeline_kwargs) -> Built:
     pfs = []
     for fd in pd["funcs"]:
         origs = [o for _, o in fd["params"]]
-        sf = SymFunc(fd["name"], origs, fd["outs"] if len(fd["outs"]) > 1 else None, log, fd["sigd"])
+        sf = SymFunc(fd["name"], origs, fd["outs"] if len(fd["outs"]) > 1 else None, log, fd["sigd"],
+                     none_prefix=NONE_PREFIX)
         renames = {o: c for c, o in fd["params"] if o != c}
         pf = PipeFunc(sf, output_name=tuple(fd["outs"]) if len(fd["outs"]) > 1 else fd["outs"][0],
                       renames=renames or None, defaults=dict(fd["defs"]) or None, bound=dict(fd["bound"]) or None,
@@ -89,9 +91,10 @@ def build_cached(pd, slot="default", **pipeline_kwargs) -> Built:
 
 
 # ------------------------------------------------------------------ random well-formed pipelines
-def gen_pipeline(rng, nmax=6, nmin=1):
+def gen_pipeline(rng, nmax=6, nmin=1, none_prob=0.0):
     """Random acyclic pipeline: nullary and tuple-output functions, shared parameters, defaults (signature and
-    explicit), bound values (also for names that are outputs of other functions), parameter renames."""
+    explicit), bound values (also for names that are outputs of other functions), parameter renames.
+    none_prob > 0: that fraction of the single-output functions / tuple members returns None (names nil...)."""
     n = rng.randint(nmin, nmax)
     funcs = []
     avail = []          # output names of earlier functions (topological construction order)
@@ -100,6 +103,13 @@ def gen_pipeline(rng, nmax=6, nmin=1):
         k = rng.choice([1, 1, 1, 1, 2, 2, 3]) if n > 1 or rng.random() < 0.5 else 1
         outs = [f"o{out_i + j}" for j in range(k)]
         out_i += k
+        fname = f"f{i}"
+        if none_prob:
+            if k == 1:
+                if rng.random() < none_prob:
+                    fname = NONE_PREFIX + fname
+            else:
+                outs = [NONE_PREFIX + o if rng.random() < none_prob else o for o in outs]
         npar = rng.choice([0, 1, 1, 2, 2, 2, 3, 3])
         pool = list(ROOTS[: rng.randint(1, 4)])
         names = []
@@ -126,7 +136,7 @@ def gen_pipeline(rng, nmax=6, nmin=1):
                 bound[c] = f"B{i}_{c}"
             elif r < 0.22:
                 defs[c] = "d_" + c
-        funcs.append({"name": f"f{i}", "outs": outs, "params": params, "sigd": sigd, "defs": defs, "bound": bound})
+        funcs.append({"name": fname, "outs": outs, "params": params, "sigd": sigd, "defs": defs, "bound": bound})
         avail += outs
     return {"funcs": funcs}
 
@@ -158,7 +168,38 @@ def root_names(pd):
     return seen
 
 
-def value_for(rng, name):
+def gen_none_diamond(rng):
+    """A diamond over a value that is None: a producer N (None-returning function, or the None member of a tuple
+    output, optionally behind a second None producer), >= 2 consumers of N, and a join."""
+    P = NONE_PREFIX
+    funcs = []
+    if rng.random() < 0.5:
+        funcs.append({"name": P + "f0", "outs": ["o0"], "params": [["x", "x"]], "sigd": {}, "defs": {}, "bound": {}})
+        n = "o0"
+    else:
+        outs = ["o0", P + "o1"] if rng.random() < 0.5 else [P + "o1", "o0"]
+        funcs.append({"name": "f0", "outs": outs, "params": [["x", "x"]], "sigd": {}, "defs": {}, "bound": {}})
+        n = P + "o1"
+    if rng.random() < 0.4:      # a second None value computed from the first (transitive re-execution)
+        funcs.append({"name": P + "f9", "outs": ["o9"], "params": [[n, n]], "sigd": {}, "defs": {}, "bound": {}})
+        n2 = "o9"
+    else:
+        n2 = n
+    c1 = [[n2, "p0" if rng.random() < 0.3 else n2]] + ([["y", "y"]] if rng.random() < 0.5 else [])
+    c2 = ([["z", "z"]] if rng.random() < 0.3 else []) + [[n2, n2]] + ([[n, n]] if n != n2 and rng.random() < 0.5 else [])
+    funcs.append({"name": "f1", "outs": ["o2"], "params": c1, "sigd": {}, "defs": {}, "bound": {}})
+    funcs.append({"name": "f2", "outs": ["o3"] if rng.random() < 0.6 else ["o3", "o5"], "params": c2,
+                  "sigd": {}, "defs": {}, "bound": {}})
+    j = [["o2", "o2"], ["o3", "o3"]] + ([[n2, n2]] if rng.random() < 0.5 else [])
+    rng.shuffle(j)
+    funcs.append({"name": "f3", "outs": ["o4"], "params": j, "sigd": {}, "defs": {}, "bound": {}})
+    rng.shuffle(funcs)
+    return {"funcs": funcs}
+
+
+def value_for(rng, name, allow_none=False):
+    if allow_none and rng.random() < 0.06:
+        return None
     r = rng.random()
     if r < 0.15:
         return rng.randint(0, 99)        # ints travel as their decimal string
